@@ -596,3 +596,48 @@ func returnsOf(fn *ssa.Function) []*ssa.Return {
 	}
 	return out
 }
+
+// paramOf resolves v to the parameter it is a copy of: the parameter itself,
+// or a load of the cell go/ssa spills a closure-captured parameter into (the
+// cell must never be reassigned, in the function or in the closures capturing
+// it).
+func paramOf(v ssa.Value) *ssa.Parameter {
+	if p, ok := v.(*ssa.Parameter); ok {
+		return p
+	}
+	ld, ok := v.(*ssa.UnOp)
+	if !ok || ld.Op != token.MUL {
+		return nil
+	}
+	cell, ok := ld.X.(*ssa.Alloc)
+	if !ok {
+		return nil
+	}
+	var prm *ssa.Parameter
+	stores := 0
+	for _, ref := range *cell.Referrers() {
+		switch r := ref.(type) {
+		case *ssa.Store:
+			if r.Addr == ssa.Value(cell) {
+				stores++
+				prm, _ = r.Val.(*ssa.Parameter)
+			}
+		case *ssa.MakeClosure:
+			cl := r.Fn.(*ssa.Function)
+			for bi, b := range r.Bindings {
+				if b == ssa.Value(cell) && bi < len(cl.FreeVars) {
+					fv := cl.FreeVars[bi]
+					for _, fr := range *fv.Referrers() {
+						if st, ok := fr.(*ssa.Store); ok && st.Addr == ssa.Value(fv) {
+							stores++
+						}
+					}
+				}
+			}
+		}
+	}
+	if stores == 1 {
+		return prm
+	}
+	return nil
+}
